@@ -4,6 +4,7 @@ import FontVerif.Model.Interp
 import FontVerif.Model.Composite
 import FontVerif.Model.Charstring
 import FontVerif.Model.InterpLoops
+import FontVerif.Model.HintMap
 namespace FontVerif.Drv.C02
 open FontVerif FontVerif.Interp
 
@@ -136,6 +137,23 @@ def cs (cff2 : Bool) (g : List Nat) (l : Option (List Nat)) (blend : Option (Nat
         | .error (.stuck, _) => "stuck"
 end CS
 
+/-- `hintmap <op> <op> ...`, op = `fb:csb:dsb:ft:cst:dst` (flags, cs_coord bits, ds_coord bits of the bottom and the
+    top hint): `HintMap::new` followed by one `insert(bottom, top, None)` per op; answer = the active edges. -/
+def hintmapOp (s : String) : Option (HintMap.Hint × HintMap.Hint) :=
+  match (s.splitOn ":").mapM parseInt? with
+  | some [fb, cb, db, ft, ct, dt] =>
+    if fb < 0 || ft < 0 then none
+    else some ({ flags := fb.toNat, cs := cb, ds := db }, { flags := ft.toNat, cs := ct, ds := dt })
+  | _ => none
+
+def hintmap (ops : List String) : String :=
+  match ops.mapM hintmapOp with
+  | none => "bad-args"
+  | some ops =>
+    match HintMap.insertAll HintMap.Map.new ops with
+    | none => "panic"
+    | some m => HintMap.render m
+
 def handle (cmd : String) (args : List String) : Option String :=
   match cmd, args with
   | "interp", [a, b, cp, nf, ni, np, nt, nc, f, p, g] =>
@@ -146,6 +164,7 @@ def handle (cmd : String) (args : List String) : Option String :=
         | some g => some (interp a b cp nf ni np nt nc f p (some g))
         | none => some "bad-args"
     | _, _, _ => some "bad-args"
+  | "hintmap", ops => some (hintmap (if ops = ["-"] then [] else ops))
   | "composite", [g, spec] =>
     match parseNat? g, (spec.splitOn ",").mapM parseGlyph with
     | some g, some gs => some (composite g gs.toArray)
